@@ -15,6 +15,7 @@ pub fn gen(group: &str, rng: &mut Rng, n: usize, out: &mut Vec<String>) {
         "ber" => ber::gen(rng, n, out),
         "frame" => frame::gen_frame(rng, n, out),
         "hostile" => frame::gen_hostile(rng, n, out),
+        "respctl" => frame::gen_respctl(rng, n, out),
         "filter" => textl::gen_filter(rng, n, out),
         "escape" => textl::gen_escape(rng, n, out),
         "entry" => textl::gen_entry(rng, n, out),
